@@ -805,6 +805,12 @@ class Exec(Engine):
         raise Undecided('call of %r' % (fv,), node)
 
     def call_method(self, recv, name, args, kwargs, st, node):
+        if isinstance(recv, VExc) and recv.cls.__module__.startswith('xdoctest'):
+            # a method of one of the library's own exception classes: through its contract
+            for k in recv.cls.__mro__:
+                if name in vars(k) and isinstance(vars(k)[name], types.FunctionType):
+                    return self.call_repo_function(vars(k)[name], [recv] + args, kwargs, st, node,
+                                                   qual='%s:%s.%s' % (k.__module__, k.__qualname__, name))
         if isinstance(recv, VStr):
             return self.call_model('str.' + name, [recv] + args, kwargs, st, node)
         if isinstance(recv, VRef):
@@ -1381,7 +1387,22 @@ class Exec(Engine):
         m = getattr(self, 'exec_' + type(node).__name__, None)
         if m is None:
             raise Undecided('unsupported statement %s' % type(node).__name__, node)
-        return m(node, st)
+        out = m(node, st)
+        aa = self.cur_contract.opts.get('assume_after') if (self.cur_contract is not None and st.depth == 0) else None
+        if aa:
+            # assumed facts about the result of an EXTERNAL call, stated in the contract at the statement that makes the call
+            # (reported with the trusted base: they are assumptions, not proof)
+            src = ast.unparse(node)
+            for prefix, clauses in aa.items():
+                if not src.startswith(prefix):
+                    continue
+                for kind, payload, s2 in out:
+                    if kind != 'normal':
+                        continue
+                    for text in clauses:
+                        self.trusted_used.add('assumed after `%s...` in %s: %s' % (prefix, self.cur_contract.qualname, text[:160]))
+                        s2.assume(self.clause(text, s2, dict(s2.frames[s2.cur])))
+        return out
 
     def _each(self, results, fn):
         """Helper: for expression results, raise -> outcome, else fn(v, s) -> outcomes."""
